@@ -232,6 +232,7 @@ impl IdMap {
     pub open spec fn knows(&self, k: Seq<char>) -> bool { self.map@.dom().contains(k) }
 
 //@extract method bigtools/src/utils/idmap.rs has_id "^impl IdMap$"
+//@rule R16
 //@optional
 //@ret r
 //@sig
@@ -241,6 +242,7 @@ impl IdMap {
 //@end
 
 //@extract method bigtools/src/utils/idmap.rs get_id "^impl IdMap$"
+//@rule R16
 //@rule R5
 //@sub /\*self\.map\.entry\((.*?)\)\.or_insert\(([^()]*)\)/ => *self.map.entry_or_insert(\1, \2) min=0
 //@ret r
@@ -323,6 +325,7 @@ pub open spec fn data_ends(m0: SecRecv, m1: StageBuf<DataFile>, m2: WriteHandle,
 }
 
 //@extract fn bigtools/src/bbi/bbiwrite.rs setup_chrom
+//@rule R16
 //@rule R7
 //@sub /<W: Write \+ Seek \+ Send \+ 'static>/ => "" min=1
 //@sub /tokio::task::JoinHandle<Result<\(usize, usize\), ProcessDataError>>/ => WriteHandle min=1
@@ -349,6 +352,7 @@ pub open spec fn data_ends(m0: SecRecv, m1: StageBuf<DataFile>, m2: WriteHandle,
 //@end
 
 //@extract closure bigtools/src/bbi/bbiwrite.rs write_vals_no_zoom setup_chrom
+//@rule R16
 //@header fn setup_chrom_no_zoom(send: &mut ChromTx<DataWithoutzooms>, options: &BBIWriteOptions, runtime: &Runtime) -> Chan
 //@ret r
 //@sig
@@ -374,6 +378,7 @@ pub open spec fn id_given(before: IdMap, after: IdMap, name: Seq<char>, id: u32)
 }
 
 //@extract closure bigtools/src/bbi/bbiwrite.rs write_vals do_read
+//@rule R16
 //@header fn do_read_write_vals(chrom: String, chrom_sizes: &VMap, chrom_ids: &mut IdMap, mut send: &mut ChromTx<Data>, options: &BBIWriteOptions, runtime: &Runtime, zoom_sizes: &Vec<u32>) -> Result<Proc, ProcessDataError>
 //@sub /format!\(\s*"[^"]*",\s*chrom\s*\)/ => fmt_unknown_chrom(&chrom) min=0
 //@sub /crate::InternalProcessData\(/ => InternalProcessData( min=0
@@ -419,6 +424,7 @@ pub open spec fn id_given(before: IdMap, after: IdMap, name: Seq<char>, id: u32)
 //@end
 
 //@extract closure bigtools/src/bbi/bbiwrite.rs write_vals_no_zoom do_read
+//@rule R16
 //@header fn do_read_write_vals_no_zoom(chrom: String, chrom_sizes: &VMap, chrom_ids: &mut IdMap, send: &mut ChromTx<DataWithoutzooms>, options: &BBIWriteOptions, runtime: &Runtime) -> Result<ProcNZ, ProcessDataError>
 //@sub /format!\(\s*"[^"]*",\s*chrom\s*\)/ => fmt_unknown_chrom(&chrom) min=0
 //@sub /setup_chrom\(\)/ => setup_chrom_no_zoom(send, options, runtime) min=0
@@ -558,6 +564,7 @@ pub proof fn lemma_order_distinct(m: IdMap)
 // A chromosome without an id makes `.expect("Should not have seen a new chrom.")` PANIC (not an Err): it is the
 // precondition `zoom_pass/pre_..` below; see NOTES.md.
 //@extract closure bigtools/src/bbi/bbiwrite.rs write_zoom_vals do_read
+//@rule R16
 //@header fn do_read_write_zoom_vals(chrom: String, chrom_ids: &VMap, zooms: &Vec<u32>, options: &BBIWriteOptions, runtime: &Runtime) -> Result<ProcZ, ProcessDataError>
 //@sub /for size in zooms\.iter\(\)\.copied\(\) \{/ => for i__1 in 0..zooms.len() { let size = zooms[i__1]; min=0
 //@sub /P::create\(/ => ProcZ::create( min=0
@@ -694,6 +701,7 @@ pub proof fn lemma_nz_set(s: Seq<u32>)
 // count down, take the pending item, compute ITS successor eagerly, yield -- a `None` successor ends the list;
 // Filter::next), with the closure bodies `z.checked_mul(4)` and `*z != 0` spliced in verbatim.
 //@extract fn bigtools/src/bbi/bbiwrite.rs write_vals
+//@rule R16
 //@presub /\A.*?\n(    let (?:mut )?zoom_sizes(?:: Vec<u32>)? = match &options\.manual_zoom_sizes \{.*?)\n    let zooms_map\b.*\Z/ => fn single_pass_zoom_sizes(options: &BBIWriteOptions) -> Vec<u32> {\n\1\n    zoom_sizes\n} min=1 count=1
 //@sub /std::iter::successors\((Some\([^()]*\)), \|z\| (.*?)\)\s*\.take\(([^()]*)\)\s*\.collect\(\)/ => { let mut out__: Vec<u32> = Vec::new(); let mut next__: Option<u32> = \1; let mut left__: usize = \3;\n            loop {\n                if left__ == 0 { break; } left__ = left__ - 1;\n                let item__: u32 = match next__ { Some(v__) => v__, None => { break; } };\n                next__ = { let z = &item__; \2 };\n                out__.push(item__);\n            }\n            out__ } min=0
 //@sub /^    let (mut )?zoom_sizes(: Vec<u32>)? = zoom_sizes\.into_iter\(\)\.filter\(\|z\| (.*?)\)\.collect\(\);/ =>     let \1zoom_sizes\2 = { let src__ = zoom_sizes; let mut out__: Vec<u32> = Vec::new(); let mut j__: usize = 0;\n        while j__ < src__.len() {\n            let z = &src__[j__];\n            if \3 { out__.push(*z); }\n            j__ = j__ + 1;\n        }\n        out__ }; min=0
